@@ -29,7 +29,8 @@ from lib.core import Stream, cZ, cbool, clist
 
 # group label -> component ids (2 and 3 overlap with 1 on purpose: different frozensets are
 # different groups for the distributor)
-GROUPS = {1: frozenset({1, 2}), 2: frozenset({2, 3}), 3: frozenset({4})}
+# (ids 1, 9, 17 collide in a small hash table, so the iteration order of a set of them depends on the insertion order)
+GROUPS = {1: frozenset({1, 9}), 2: frozenset({9, 17}), 3: frozenset({4})}
 GROUP_OF = {v: k for k, v in GROUPS.items()}
 MODES = ["instant_ok", "instant_exc", "gate_ok", "gate_exc", "sleep_ok", "sleep_exc"]
 
@@ -160,7 +161,15 @@ def run_case(case):
                 rid += 1
                 modes[rid] = [step[2], step[3]]
                 val = step[4] if len(step) > 4 else rid        # the VALUE may repeat; the identity never does
-                req_obj = Request(Power.from_watts(float(val)), GROUPS[step[1]])
+                # every request carries its OWN component-id container: a set / frozenset built by inserting the ids in
+                # ascending or descending order (equal sets, possibly different iteration order)
+                ids_sorted = sorted(GROUPS[step[1]], reverse=(rid % 2 == 0))
+                ids_obj = set()
+                for i_ in ids_sorted:
+                    ids_obj.add(i_)
+                if rid % 3 == 0:
+                    ids_obj = frozenset(ids_obj)
+                req_obj = Request(Power.from_watts(float(val)), ids_obj)
                 rid_of[id(req_obj)] = rid
                 sent.append(req_obj)
                 await sender.send(req_obj)
@@ -206,9 +215,12 @@ def run_case(case):
 
     def snapshot(actor):
         out = []
-        for g, ids in sorted(GROUPS.items()):
-            p = actor._pending_requests.get(ids)
-            out.append([g, ids in actor._processing_tasks, None if p is None else rid_of[id(p)]])
+        for g, ids in sorted(GROUPS.items()):      # whatever the key type, a key denotes the SET of its ids
+            infl = [k for k in actor._processing_tasks if frozenset(k) == ids]
+            pend = [v for k, v in actor._pending_requests.items() if frozenset(k) == ids]
+            # more than one entry for one group is itself a disagreement with the model: report the count
+            out.append([g, len(infl) == 1 if len(infl) <= 1 else True, None if not pend else rid_of[id(pend[-1])]]
+                       + ([len(infl), len(pend)] if len(infl) > 1 or len(pend) > 1 else []))
         return out
 
     asyncio.set_event_loop(loop)
@@ -261,6 +273,7 @@ def c_steps(steps):
 
 
 def c_snapshot(snap):
+    snap = [x if len(x) == 3 else [0, True, None] for x in snap]     # several entries for one group: no model state matches
     return clist(snap, lambda x: f"({cZ(x[0])}, {cbool(x[1])}, {'None' if x[2] is None else f'(Some {cZ(x[2])})'})")
 
 
